@@ -3,7 +3,7 @@ from pyvc.verify import Post, Case, Equiv
 from contracts import common
 
 PROPERTY = 'C02'
-REF_MODULES = ['ref_t', 'h_path']
+REF_MODULES = ['ref_t', 'h_path', 'ref_extra', 'ref_core']
 TS = ['len(T.__ops__) == 1', 'T.__ops__[0] is T', 'len(S.__ops__) == 1', 'S.__ops__[0] is S', 'len(A.__ops__) == 1', 'A.__ops__[0] is A']
 
 
@@ -59,6 +59,8 @@ def contracts():
         Case('A-root', args={'parent': 'inst:core.TType', 'operation': 'str', 'arg': 'ref'}, requires=TS + ['len(parent.__ops__) >= 1', 'parent.__ops__[0] is A'],
              ensures=["operation in ('.', '[', 'P')", 'same(result.__ops__, parent.__ops__ + (operation, arg))'],
              raises={'core.BadSpec': "operation not in ('.', '[', 'P')"})]))
+    from contracts import extra
+    cs += common.shared(extra, ['core.TType.__call__'])
     return cs
 
 
